@@ -13,10 +13,13 @@ EXPLANATION = (
     "tiles with symbolic chunk sizes): every tile whose region meets the box in positive area lies in the returned "
     "ranges, ranges stay inside [0, count). GeoboxTiles._grid_intersect_linear / grid_intersect for same-CRS "
     "scale+translation pairs: every source tile overlapping a mapped destination tile by more than a sliver is listed; "
-    "disjoint rasters give no error. _check_linear takes the linear path exactly for same-CRS scale+translation pairs."
+    "disjoint rasters give no error. _check_linear takes the linear path exactly for same-CRS scale+translation pairs. "
+    "Queries in the raster's CRS with multi-part stand-in geometries and world boxes on rotated grids; queries and destination tiles "
+    "given in ANOTHER CRS whose straight edges bend in the raster's CRS (the CRS change stands in as 'vertices only unless a finite "
+    "resolution is given'; replay on real PROJ); tiles of a control-point grid with curved edges."
 )
 ASSUMPTIONS = [
-    "geometry queries (exact filter is shapely.disjoint) and the general cross-CRS path (footprints through PROJ) are outside the claim",
+    "GEOS and PROJ themselves are outside the claim: geometries are vertex-list / union-of-rectangles stand-ins answering boundingbox / disjoint / to_crs by stated contracts, a CRS change maps vertices only unless a finite resolution is given (replayed on real PROJ with fixed witnesses); rasters crossing the antimeridian or a pole are not modelled",
     "over-approximation at clamped edges is allowed for box queries and is not flagged",
     "regular tile sizes and pixel scales from finite grids; box edges, image sizes, translations, tile indices symbolic",
     "dependency graph: destination <= 2 tiles and source <= 4 tiles per axis (tile loops are unrolled by case split), quick tier factors the axes",
